@@ -1,5 +1,7 @@
 import TongoProofs.Lemmas.BocWriter
 import TongoProofs.Lemmas.BocOrderFinal
+import TongoProofs.Lemmas.BocOrderCanon
+import TongoProofs.Lemmas.BocCellTable
 /-! Property C01 — bag-of-cells serialisation round-trips and is canonical.
 
 `parseBoc` is the line-by-line model of the (repaired) Go reader, `emitBoc` the reference writer with every choice a
@@ -86,11 +88,95 @@ theorem roundtrip_go_writer {K : Type} [BEq K] [Hashable K] [LawfulBEq K] (t : T
     simpa using this
   exact roundtrip o.table o.roots idx crc cache o.cacheBits hval.valid hn (by omega) (by omega) hlen
 
+/-- `KeyInjOn` holds for Go's actual key — the representation hash `Cell.Hash()` of the cell a row unfolds to
+(`Order.goKey`; Go uses its hex string, an injective rendering) — on every valid table of level-0 cells (mask 0, no
+pruned branch: what the wallet, the message builders and the TL-B encoders produce), as soon as `H` has 32-byte outputs
+and no collision among the representations of the table's cells. (For cells with non-zero level masks the hash does
+NOT determine the tree unless the masks are consistent — see `assumptions`; not derived there.) -/
+theorem keyInjOn_of_collisionFree (H : List UInt8 → List UInt8) (hlen : ∀ x, (H x).length = 32) (t : Table)
+    (roots : List Nat) (hv : ValidLayout t roots) (h0 : Order.Lvl0 t)
+    (cf : CollisionFree H (Order.reprsOf H t)) : Order.KeyInjOn t (Order.goKey H t) :=
+  Order.keyInjOn_of_collisionFree H hlen t roots hv h0 cf
+
+/-- `roundtrip_go_writer` with collision-freedom as the only hypothesis about the hash: the writer model keyed by the
+representation hash round-trips on every valid level-0 table. -/
+theorem roundtrip_go_writer_sha (H : List UInt8 → List UInt8) (hlen : ∀ x, (H x).length = 32) (t : Table)
+    (roots : List Nat) (idx crc cache : Bool) (hv : ValidLayout t roots) (h0 : Order.Lvl0 t)
+    (cf : CollisionFree H (Order.reprsOf H t)) :
+    ∃ o bs, Order.order t (Order.goKey H t) roots = .ok o ∧
+      Order.serializeBocModel t (Order.goKey H t) roots idx crc cache = .ok bs ∧ Order.OrderValid t roots o ∧
+      (o.table.size < 16777216 → 1 ≤ roots.length → roots.length ≤ o.table.size → bs.length < two63 →
+        parseBoc bs = .ok (o.table, o.roots)) :=
+  roundtrip_go_writer t roots (Order.goKey H t) idx crc cache hv
+    (Order.keyInjOn_of_collisionFree H hlen t roots hv h0 cf)
+
+/-- Canonical: two presentations of the same cells (different row order, different sharing, duplicate rows) whose roots
+unfold to the same trees — keys identifying the trees in both, and agreeing across the two — are serialised to the
+same bytes, for all 2³ option sets. (The import walks the unfolded trees and de-duplicates by key, so the import order,
+the weights, the cache flags and hence the final order depend only on the trees.) -/
+theorem serialize_canonical {K : Type} [BEq K] [Hashable K] [LawfulBEq K] (t1 t2 : Table) (roots1 roots2 : List Nat)
+    (key1 key2 : Nat → Option K) (idx crc cache : Bool)
+    (hv1 : ValidLayout t1 roots1) (hv2 : ValidLayout t2 roots2)
+    (hk1 : Order.KeyInjOn t1 key1) (hk2 : Order.KeyInjOn t2 key2)
+    (hsame : ∀ i1 i2, i1 < t1.size → i2 < t2.size →
+      Table.unfold t1 (t1.size + 1) i1 = Table.unfold t2 (t2.size + 1) i2 → key1 i1 = key2 i2)
+    (hroots : roots1.map (Table.unfold t1 (t1.size + 1)) = roots2.map (Table.unfold t2 (t2.size + 1))) :
+    ∃ bs, Order.serializeBocModel t1 key1 roots1 idx crc cache = .ok bs ∧
+      Order.serializeBocModel t2 key2 roots2 idx crc cache = .ok bs := by
+  obtain ⟨o1, o2, e1, e2, ht, hr, hc⟩ :=
+    Order.orderWith_canonical t1 t2 roots1 roots2 key1 key2 Order.goSpecial hv1 hv2 hk1 hk2 hsame hroots
+  have e1' : Order.order t1 key1 roots1 = .ok o1 := e1
+  have e2' : Order.order t2 key2 roots2 = .ok o2 := e2
+  refine ⟨Writer.serializeOrdered o1.table o1.roots idx crc cache o1.cacheBits, ?_, ?_⟩
+  · simp only [Order.serializeBocModel, e1']
+  · simp only [Order.serializeBocModel, e2', ht, hr, hc]
+
+/-- Every cell TREE within the limits of the format (`CellOK`: ≤ 1023 bits, ≤ 4 references, 3-bit masks, complete
+pruned branches, exotic cells starting with their type byte; depth ≤ 1024) has a table presentation that is a valid
+layout and whose root unfolds to the tree. -/
+theorem cell_has_presentation (c : Cell) (hok : Order.CellOK c) (hd : Order.cellDepth c ≤ maxDepth) :
+    ValidLayout (Order.cellTable c) [0] ∧
+    Table.unfold (Order.cellTable c) ((Order.cellTable c).size + 1) 0 = some c :=
+  ⟨Order.cellTable_valid c hok hd, Order.cellTable_unfold c⟩
+
+/-- **Round trip on cells.** For every cell tree within the limits of the format, every key identifying the cells and
+all 2³ option sets: the writer model succeeds on (the presentation of) the tree, and the reader applied to its bytes
+returns a table whose root unfolds to the tree — same bits, type, references in the same order, hence the same
+representation hash. By `serialize_canonical` any other presentation of the same tree (any sharing) gives the same
+bytes. -/
+theorem roundtrip_cell {K : Type} [BEq K] [Hashable K] [LawfulBEq K] (c : Cell) (key : Nat → Option K)
+    (idx crc cache : Bool) (hok : Order.CellOK c) (hd : Order.cellDepth c ≤ maxDepth)
+    (hk : Order.KeyInjOn (Order.cellTable c) key) :
+    ∃ (o : Order.Ordered) (bs : Bytes), Order.serializeBocModel (Order.cellTable c) key [0] idx crc cache = .ok bs ∧
+      o.roots.map (Table.unfold o.table (o.table.size + 1)) = [some c] ∧
+      (o.table.size < 16777216 → bs.length < two63 → parseBoc bs = .ok (o.table, o.roots)) := by
+  obtain ⟨o, bs, _, hser, hval, hparse⟩ :=
+    roundtrip_go_writer (Order.cellTable c) [0] key idx crc cache (Order.cellTable_valid c hok hd) hk
+  refine ⟨o, bs, hser, ?_, ?_⟩
+  · have := hval.roots_eq
+    simpa [Order.cellTable_unfold c] using this
+  · intro hn hlen
+    have hpos : 1 ≤ o.table.size := by
+      have hl := congrArg List.length hval.roots_eq
+      simp only [List.length_map, List.length_cons, List.length_nil] at hl
+      cases hr : o.roots with
+      | nil => rw [hr] at hl; simp at hl
+      | cons r rs =>
+        have := hval.valid.1.2.1 r (by rw [hr]; simp)
+        omega
+    exact hparse hn (by simp) (by simpa using hpos) hlen
+
 /-- The hypotheses of `order_valid` / `roundtrip_go_writer` are satisfiable by a table with sharing (the root refers
 twice to the same child), keyed by the row number. -/
 example : ∃ (t : Table) (roots : List Nat) (key : Nat → Option Nat),
     ValidLayout t roots ∧ Order.KeyInjOn t key ∧ t.size = 2 :=
   ⟨Order.exT, [0], fun i => some i, Order.exT_valid, Order.exT_key, rfl⟩
+
+/-- … and by a table with two structurally equal rows (rows 1 and 2 are the same cell and share a key): the
+de-duplication hit path of importCell is exercised. -/
+example : ∃ (t : Table) (roots : List Nat) (key : Nat → Option Nat),
+    ValidLayout t roots ∧ Order.KeyInjOn t key ∧ t.size = 3 ∧ key 1 = key 2 :=
+  ⟨Order.exDup, [0], fun i => some (if i = 2 then 1 else i), Order.exDup_valid, Order.exDup_key, rfl, rfl⟩
 
 /-- Not vacuous (tests on literals): a two-row table with a shared, non-byte-aligned, child is written by the
 reference writer with the idx+crc magic, 2-byte references, 3-byte offsets, and read back. -/
